@@ -44,7 +44,7 @@ pub fn explorer_plan(prop: &str, thorough: bool) -> Option<Plan> {
             }
             Plan {
                 profile: p,
-                cases: (10000, 160000),
+                cases: (6000, 120000),
                 required: &["forests_checked", "tr_item_child_to_bucket", "tr_split_collapsed", "tr_bucket_resplit", "tr_trees_removed", "tr_trees_added", "builds_multithread"],
                 custom_gen: None,
                 rule: "case = seeded configuration (metric, dims, ids, values) + history ((add|overwrite|append|del|clear)* build)+; after every successful build the raw LMDB dump is decoded by the reference decoder and walked (C01 oracle); non-trivial+distinct = distinct forest shape hashes (split/bucket/item-child structure with depths and bucket sizes) among forests that contain at least one split",
